@@ -40,15 +40,78 @@ def work(item):
     return cls, model, dt
 
 
-def nested_envelope(levels, kind):
+def nested_envelope(levels, kind, innermost=(14, 0)):
     import cbor2
-    seq = [14, 0]
+    seq = list(innermost)
     for _ in range(levels):
         inner = cbor2.dumps(seq)
         seq = [32, inner] if kind == "run" else [15, [inner]]
     man = {1: 1, 2: 1, 3: cbor2.dumps({2: [[b"\x00"]]}), 7: cbor2.dumps(seq)}
     auth = cbor2.dumps([cbor2.dumps([-16, b"\x00" * 32])])
     return cbor2.dumps(cbor2.CBORTag(107, {2: auth, 3: cbor2.dumps(man)}))
+
+
+_PARSE_ONE = """
+import sys, time
+sys.path.insert(0, sys.argv[1])
+import logging
+logging.disable(logging.CRITICAL)
+from suit_generator.suit.envelope import SuitEnvelopeTagged
+b = bytes.fromhex(sys.stdin.read().strip())
+t = time.perf_counter()
+try:
+    SuitEnvelopeTagged.from_cbor(b).to_obj()
+    r = "ok"
+except ValueError as e:
+    r = "SUITError" if type(e).__name__ == "SUITError" else "ValueError"
+except BaseException as e:
+    r = type(e).__name__
+print("RESULT", r, round(time.perf_counter() - t, 3))
+"""
+
+
+def deep_rejections(res, tier):
+    """a malformed element under many nested try-each / run-sequence levels must be rejected in time proportional to the input,
+    each input in its own interpreter with a hard limit (a parser that does not answer cannot be timed from inside)"""
+    import subprocess
+    from concurrent.futures import ThreadPoolExecutor
+    limit = 25.0
+    levels = [2, 6, 10, 14, 18, 24, 40] if tier == "quick" else [2, 4, 6, 8, 10, 12, 14, 16, 18, 20, 24, 32, 40, 60, 90]
+    jobs = []
+    for lv in levels:
+        for kind in ("try", "run"):
+            for tag, inner in (("bad-argument-type", (14, b"")), ("unknown-command", (99, 0)), ("odd-length", (14, 0, 14)), ("valid", (14, 0))):
+                jobs.append((lv, kind, tag, nested_envelope(lv, kind, inner)))
+
+    def one(job):
+        lv, kind, tag, b = job
+        try:
+            p = subprocess.run([common.PY, "-c", _PARSE_ONE, str(common.REPO)], input=b.hex(), capture_output=True, text=True, timeout=limit)
+        except subprocess.TimeoutExpired:
+            return job, "no-answer", limit
+        for line in p.stdout.splitlines():
+            if line.startswith("RESULT "):
+                _, r, dt = line.split()
+                return job, r, float(dt)
+        return job, "crash:" + p.stderr[-200:], 0.0
+
+    with ThreadPoolExecutor(max_workers=14) as ex:
+        outs = list(ex.map(one, jobs))
+    for (lv, kind, tag, b), r, dt in outs:
+        res.case(["deep", lv, kind, tag], nontrivial=True)
+        res.count("deep:" + tag + ":" + r.split(":")[0])
+        if r == "no-answer":
+            res.spec_failures.append({"input": b.hex(), "kind": f"deep:{kind}:{tag}", "levels": lv, "length": len(b),
+                                      "what": f"no answer within {limit} s for a {len(b)}-byte envelope with {lv} nested levels (time not bounded by the input size)"})
+        elif r not in OKCLASSES:
+            res.spec_failures.append({"input": b.hex(), "kind": f"deep:{kind}:{tag}", "impl": r, "what": "the envelope parser let an unrelated internal error escape"})
+        elif tag == "valid" and r != "ok":
+            res.spec_failures.append({"input": b.hex(), "kind": f"deep:{kind}:{tag}", "impl": r, "what": "a well-formed nested envelope was rejected"})
+        elif tag != "valid" and r == "ok":
+            res.spec_failures.append({"input": b.hex(), "kind": f"deep:{kind}:{tag}", "what": "a malformed nested envelope was accepted"})
+        elif dt > 2.0 + 0.002 * len(b):
+            res.spec_failures.append({"input": b.hex(), "kind": f"deep:{kind}:{tag}", "seconds": dt, "length": len(b), "levels": lv,
+                                      "what": "parse time far beyond a linear budget (2 s + 2 ms/byte)"})
 
 
 def py_lenient_ok(b: bytes, depth=0) -> bool:
@@ -198,6 +261,7 @@ def run(tier: str, seed: int) -> int:
                 res.sample({"kind": k, "input": b.hex()[:160] + ("..." if len(b) > 80 else "")})
                 break
     res.notes["guards"] = st.extract_notes.get("guards")
+    deep_rejections(res, tier)
     return finish(res, st, RULE, NOTE)
 
 
